@@ -65,7 +65,8 @@ var resultTypeCount int
 func ResultType(identifier string, args ...any) *expr.ResultTypeExpr {
 	if _, ok := eval.Current().(eval.TopExpr); !ok {
 		eval.IncompatibleDSL()
-		return nil
+		// don't return nil to avoid panics, the error will get reported at the end
+		return expr.NewResultTypeExpr("InvalidResultType", "text/plain", nil)
 	}
 
 	var (
@@ -99,7 +100,7 @@ func ResultType(identifier string, args ...any) *expr.ResultTypeExpr {
 				}
 				if len(args) > 2 {
 					eval.TooManyArgError()
-					return nil
+					return expr.NewResultTypeExpr("InvalidResultType", "text/plain", nil)
 				}
 			}
 		}
@@ -111,7 +112,7 @@ func ResultType(identifier string, args ...any) *expr.ResultTypeExpr {
 			eval.ReportError(
 				"result type %#v with canonical identifier %#v is defined twice",
 				identifier, canonicalID)
-			return nil
+			return expr.NewResultTypeExpr("InvalidResultType", "text/plain", nil)
 		}
 	}
 	// Add the type to the generated types root for later evaluation.
